@@ -242,6 +242,7 @@ class RuleRecorder:
         self.fold = {}
         self.lit = {}
         self.dx = {}
+        self.vec = []
         self._orig = []
 
     def _dump(self, e):
@@ -320,6 +321,29 @@ class RuleRecorder:
             cls._dx_impl = mk(orig)
             self._orig.append((cls, '_dx_impl', orig))
 
+    def install_vec(self):
+        """VForm.substitute_vec_components(expr) -> (expr, result, variables at that time)"""
+        vfm = self.vfm
+        rr = self
+        orig = vfm.VForm.substitute_vec_components
+
+        def substitute_vec_components(self_, expr):
+            try:
+                din = dump_expr(vfm, expr, [4000])
+            except TooBig:
+                din = None
+            out = orig(self_, expr)
+            if din is not None and len(rr.vec) < 4:
+                try:
+                    budget = [8000]
+                    rr.vec.append([din, dump_expr(vfm, out, budget),
+                                   [dump_var(vfm, v, budget) for v in self_.vars.values()]])
+                except TooBig:
+                    pass
+            return out
+        vfm.VForm.substitute_vec_components = substitute_vec_components
+        self._orig.append((vfm.VForm, 'substitute_vec_components', orig))
+
     def uninstall(self):
         for (obj, name, orig) in reversed(self._orig):
             setattr(obj, name, orig)
@@ -329,6 +353,7 @@ class RuleRecorder:
         import json
         out = {'fold': [[json.loads(k), v] for k, v in self.fold.items()],
                'lit': [[json.loads(k), v] for k, v in self.lit.items()],
-               'dx': [[json.loads(k), v] for k, v in self.dx.items()]}
-        self.fold, self.lit, self.dx = {}, {}, {}
+               'dx': [[json.loads(k), v] for k, v in self.dx.items()],
+               'vec': self.vec}
+        self.fold, self.lit, self.dx, self.vec = {}, {}, {}, []
         return out
